@@ -98,3 +98,19 @@ PROPS["C17"] = {
         "note": "Trusted: gosym executor, z3, regexp/syntax compiler (used to obtain the program that is simulated). Two genuine defects of hostnameRegex are listed in known_findings.json (not repairable without editing an existing test).",
     },
 }
+
+PROPS["C11"] = {
+    "level": "model_checking",
+    "jobs": [
+        {"name": "eval", "pkg": "goa.design/goa/v3/eval", "pkgdir": "eval", "pkgname": "eval", "harness_dir": "eval",
+         "files": ["zz_verif_c11.go"], "quick": r"^VerifC11_", "thorough": r"^VerifC11T?_", "shards": {"RootsOrder4": 12}},
+    ],
+    "bounds": {"quick": {"roots": "2-3, every dependency matrix (self loops for 2), every registration order", "phases": "2 roots, 4 expressions (+1 registered late), every error-bit vector"},
+               "thorough": {"roots": "4 (all 4096 matrices x 24 orders)"}},
+    "assumptions": ["Go map iteration inside Roots() runs in insertion order in the executor (the cycle check's verdict does not depend on it; not separately explored here)"],
+    "outside": ["5-6 roots", "errors raised through eval.ReportError (needs runtime.Caller); harness expressions record errors with Context.Record"],
+    "manifest": {
+        "text": "Bounded model checking of the real eval.Context.Roots/sortDependencies, Register, RunDSL, runSet/prepareSet/validateSet/finalizeSet: for every dependency matrix over 2-3 (thorough 4) roots and every registration order the solver-driven exploration shows that Roots() returns every root exactly once with all transitive dependencies first iff the graph is acyclic and an error otherwise; on an event log of instrumented roots/expressions it shows the global phase barrier, execution of expressions added and roots registered during execution, that all errors of a phase are returned together and that nothing is finalized after an execution or validation error, for every vector of error bits. The inputs are bits, so each explored path is one class of graphs the code cannot distinguish (closer to exhaustive case analysis; stated as such).",
+        "note": "Trusted: gosym executor, z3. Two genuine defects found by this check were repaired (see known_findings.json 'fixed').",
+    },
+}
